@@ -41,6 +41,10 @@ def loop_norms(f):
 def run(ctx):
     ck = ctx.check
     cr = ctx.crate("default")
+    ck.rule("R18z", "every index, slice range and division reachable from the two back-reference decoders and the length probe is in bounds (proved, or by a listed invariant)")
+    from rules import c25
+    counts, n_sites = c25.check_bounds(ck, cr, "R18z", c25.reach_fns(cr, [NEW, OLD, PROBE]))
+    ck.floor("back-reference decoder indexing sites", n_sites, 20)
     ck.rule("R18a", "ghost-pair parity: one ghost pair per value pushed (after the value was obtained), one removed per materialised stack cell")
     ck.rule("R18b", "both decoders parse under the same marker tests and call the back-reference callback once with the resolved node")
     ck.rule("R18c", "the two path walkers have identical loop control and direction")
